@@ -34,7 +34,7 @@ def gen(R):
         k = R.weighted([
             (4, "read"), (2, "read_attr"), (4, "assign"), (3, "assign_attr"), (4, "set"), (2, "setattr"), (2, "delete"),
             (1, "delete_attr"), (2, "exist"), (1, "names"), (2, "getattr"), (2, "external"), (1, "external_remove"),
-            (2, "snap"), (2, "check_snap"), (1, "assign_snap"), (1, "set_snap"), (1, "precedence"), (1, "virtual"), (1, "read_fn"),
+            (2, "snap"), (2, "check_snap"), (1, "assign_snap"), (1, "set_snap"), (1, "precedence"), (2, "virtual"), (1, "rereport"), (1, "external_rereport"), (1, "read_fn"),
         ])
         op = {"op": k, "ent": ent, "attr": attr}
         if k in ("assign", "external"):
@@ -102,7 +102,13 @@ def snippet(op):
     if k == "precedence":
         return "_out = (shadowdom.ent, callable(vtestdom.svc))"
     if k == "virtual":
-        return f"_r = {e}\n_out = (_r.entity_id, _r.last_changed is not None, _r.last_updated is not None, _r.last_reported is not None)"
+        # the four virtual fields through every read form: a held snapshot, direct attribute access, state.get
+        return (f"_r = {e}\n_out = (_r.entity_id, str(_r.last_changed), str(_r.last_updated), str(_r.last_reported), "
+                f"str({e}.last_changed), str({e}.last_updated), str({e}.last_reported), "
+                f"str(state.get({e + '.last_changed'!r})), str(state.get({e + '.last_updated'!r})), str(state.get({e + '.last_reported'!r})))")
+    if k == "rereport":
+        # the same value written again from the script (attributes kept): only last_reported moves
+        return f"state.set({e!r}, str({e}))\n_out = None"
     raise AssertionError(k)
 
 
@@ -189,7 +195,11 @@ class Model:
         if k == "virtual":
             if cur is None:
                 return ("exc", "NameError")
-            return ("ok", [e, True, True, True])
+            return ("ok", "virtual-fields-of-home-assistant")  # filled in from Home Assistant's state object by the executor
+        if k in ("rereport", "external_rereport"):
+            if cur is None:
+                return ("exc", "NameError") if k == "rereport" else ("ok", None)
+            return ("ok", None)
         if k == "external":
             attrs = dict(op["attrs"]) if op.get("attrs") is not None else (dict(cur[1]) if cur else {})
             self.ents[e] = [op["val"], attrs]
@@ -232,6 +242,12 @@ async def execute(case):
             elif op["op"] == "external_remove":
                 it.hass.states.async_remove(op["ent"])
                 obs = ("ok", None)
+            elif op["op"] == "external_rereport":
+                # an integration reports the same value and attributes again: only last_reported moves
+                cur = it.hass.states.get(op["ent"])
+                if cur is not None:
+                    it.hass.states.async_set(op["ent"], cur.state, dict(cur.attributes))
+                obs = ("ok", None)
             else:
                 ast_ctx = AstEval("file.hello", gctx)
                 Function.install_ast_funcs(ast_ctx)
@@ -241,6 +257,10 @@ async def execute(case):
                     obs = ("ok", gctx.global_sym_table.get("_out"))
                 except Exception as exc:  # noqa: BLE001 - the property compares exception types
                     obs = ("exc", type(exc).__name__)
+            if op["op"] == "virtual" and exp[0] == "ok":
+                st = it.hass.states.get(op["ent"])
+                if st is not None:
+                    exp = ("ok", [st.entity_id] + [str(x) for x in (st.last_changed, st.last_updated, st.last_reported)] * 3)
             await it.settle(1)
             world = {}
             for ent in ENTS:
